@@ -1,1 +1,43 @@
 //! Kani harnesses compiled as a child module of rustzx-core/src/utils/screen.rs (cfg(kani) only).
+#![allow(dead_code)]
+use super::*;
+
+/// C08 statement: display-file offset of the byte holding pixel (x, y)
+pub(crate) fn spec_bitmap_offset(y: usize, col: usize) -> usize {
+    ((y & 0xC0) << 5) | ((y & 7) << 8) | ((y & 0x38) << 2) | col
+}
+
+/// C08 statement: attribute offset for pixel (x, y)
+pub(crate) fn spec_attr_offset(y: usize, col: usize) -> usize {
+    0x1800 + (y >> 3) * 32 + col
+}
+
+// @harness
+// @prop C08
+// @tier quick
+// @timeout 300
+// @fn bitmap_line_addr; bitmap_line_rel; bitmap_col_rel; attr_row_rel; attr_col_rel
+// @sym pixel row y < 192, byte column < 32
+// @assert the address helpers are the inverse of the standard Spectrum screen layout: offset ((y&0xC0)<<5)|((y&7)<<8)|((y&0x38)<<2)|(x>>3) decodes to (y, column); attribute offset 0x1800+(y>>3)*32+(x>>3) decodes to (y>>3, column); line address = 0x4000 + offset of column 0; every display-file offset below 0x1800 decodes to a unique (line, column)
+// @bound all 6144 + 768 cells (symbolic, no loops)
+#[kani::proof]
+fn c08_address_layout() {
+    let y: usize = kani::any();
+    let col: usize = kani::any();
+    kani::assume(y < 192 && col < 32);
+    let off = spec_bitmap_offset(y, col);
+    kani::assert(off < 0x1800, "c08.layout.offset_in_bitmap");
+    kani::assert(bitmap_line_rel(off as u16) == y, "c08.layout.bitmap_line");
+    kani::assert(bitmap_col_rel(off as u16) == col, "c08.layout.bitmap_col");
+    kani::assert(bitmap_line_addr(y) as usize == 0x4000 + spec_bitmap_offset(y, 0), "c08.layout.line_address");
+    let aoff = spec_attr_offset(y, col);
+    kani::assert(aoff >= 0x1800 && aoff <= 0x1AFF, "c08.layout.offset_in_attributes");
+    kani::assert(attr_row_rel(aoff as u16) == y >> 3, "c08.layout.attr_row");
+    kani::assert(attr_col_rel(aoff as u16) == col, "c08.layout.attr_col");
+    // surjectivity: every offset is the offset of the cell it decodes to
+    let any_off: u16 = kani::any();
+    kani::assume(any_off < 0x1800);
+    kani::assert(spec_bitmap_offset(bitmap_line_rel(any_off), bitmap_col_rel(any_off)) == any_off as usize, "c08.layout.bijective");
+    kani::cover!(y == 191 && col == 31, "last cell");
+    kani::cover!(y == 64 && off == 0x0800, "second third");
+}
